@@ -36,6 +36,12 @@ THEOREMS = [
     "IrVerif.Clone.C13_closed_model",
     "IrVerif.Clone.C13_clone_pure",
     "IrVerif.Clone.C13_clone_pure_model",
+    "IrVerif.Clone.C13_frame",
+    "IrVerif.Clone.C13_frame_clone_edited",
+    "IrVerif.Clone.C13_frame_function",
+    "IrVerif.Clone.C13_functionalize",
+    "IrVerif.Clone.C13_frame_orig_edited",
+    "IrVerif.Clone.C13_frame_orig_edited_model",
 ]
 ASSUMPTIONS = [
     "metadata containers are modelled as allocated together with their owner (Python creates them lazily)",
@@ -89,6 +95,7 @@ class Built:
         self.shape_pool = [build_shape(s) for s in spec.get("shape_pool", [])]
         self.configs = [ir.ModelConfiguration(f"cfg{k}", 2) for k in range(spec.get("nconfigs", 0))]
         self.values: dict[str, ir.Value] = {}
+        self.unname: list[ir.Node] = []
         self.graphs: dict[str, ir.Graph] = {}
         self.keep: list = []
         self.functions = []
@@ -108,6 +115,8 @@ class Built:
         self.views: dict[str, ir.GraphView] = {}
         for vs in spec.get("views", []):
             self.views[vs["name"]] = self.view(vs)
+        for node in self.unname:  # `node.name = None` after the graph named it
+            node.name = None
 
     # values -----------------------------------------------------------------
     def fill_value(self, v, s):
@@ -189,6 +198,8 @@ class Built:
             node.meta[k] = x
         for k in n.get("meta_invalid", []):
             node.meta.invalidate(k)
+        if n.get("unname"):
+            self.unname.append(node)
         for a in n.get("attrs", []):
             if "key" in a:  # attribute filed under a key different from its name
                 at = node.attributes.pop(a["name"])
@@ -203,6 +214,8 @@ class Built:
                 self.new_value(o)
         nodes = [self.node(n, scope + [g["name"]]) for n in g["nodes"]]
         outputs = [self.values[o] for o in g["outputs"]]
+        for nm in g.get("ghost_outputs", []):
+            outputs.append(ir.Value(name=nm))
         gr = ir.Graph(
             inputs,
             outputs,
@@ -639,6 +652,15 @@ def snapshot(root, own_nodes_only=True):
     return (top, tuple(sg), tuple(sn), tuple(sv))
 
 
+def users_of(roots):
+    """complete usage records of every value the roots own (identity based)"""
+    res = []
+    for r in roots:
+        for v in walk(r)[2]:
+            res.append(tuple((id(u.node), u.idx) for u in v._uses))
+    return res
+
+
 def serialize(root):
     try:
         if isinstance(root, ir.Model):
@@ -722,6 +744,9 @@ def check_clone_oracle(out, spec, src, clone, pre_cells, src_ser, tag):
     if isinstance(src_ser, bytes) and cl_ser != src_ser:
         what = "serialized clone differs from the serialized original"
         sig = f"faithful:{tag}"
+        if any(n.name is None for n in walk(src)[1]):
+            sig = f"faithful:unnamed-node:{tag}"
+            what = "the clone of a graph with a node named None serializes with an invented node name"
         if isinstance(src, ir.GraphView) and isinstance(cl_ser, bytes) and _equal_but_value_info(src_ser, cl_ser):
             # the two protos differ only in which node outputs are listed in value_info
             sig = f"faithful:value_info-only:{tag}"
@@ -836,23 +861,6 @@ def apply_edit(heap: Heap, b: Built, e):
 _ID_FIELDS = {"v", "o", "n", "g"}
 
 
-def translate_edit(heap: Heap, b: Built, e, m):
-    """impl raw ids -> model raw ids (m: dict) for the driver"""
-    r = {"op": "edit"}
-    for k, x in e.items():
-        if k in _ID_FIELDS and x is not None:
-            r[k] = m[x]
-        elif k == "inputs":
-            r[k] = [None if y is None else m[y] for y in x]
-        elif k == "t" and e["e"] == "setConst":
-            r[k] = None if x is None else heap.tensor(b.tensors[x])
-        else:
-            r[k] = x
-    if e["e"] == "setAttr":
-        r["p"] = heap.payload(("INT", repr(int(e["val"]))))
-    return r
-
-
 # --------------------------------------------------------------------------- generators
 
 
@@ -959,11 +967,13 @@ class SpecGen:
                 vis = list(dict.fromkeys(visible + local))
                 if rng.random() < 0.7:
                     n["attrs"].append({"name": self.name("body"), "kind": "graph",
-                                       "value": self.graph(depth - 1, vis, unsorted_ok)})  # fmt: skip
+                                       "value": self.graph(depth - 1, vis, unsorted_ok, allow_outer_out=True)})  # fmt: skip
                 else:
                     n["attrs"].append({"name": self.name("branches"), "kind": "graphs",
                                        "value": [self.graph(depth - 1, vis, unsorted_ok) for _ in range(rng.randrange(1, 3))]})  # fmt: skip
             self.metas(n, 0.2)
+            if rng.random() < 0.01:
+                n["unname"] = True
             if self.nconfigs and rng.random() < 0.3:
                 cands = [x for x in n["inputs"] if x is not None] + [o["name"] for o in n["outs"]]
                 specs = [{"value": rng.choice(cands + [None]) if cands else None, "device": [0, 1]}
@@ -977,8 +987,9 @@ class SpecGen:
         for _ in range(rng.randrange(0, 3)):
             if cands:
                 g["outputs"].append(rng.choice(cands))
-        if allow_outer_out and visible and rng.random() < 0.3:
-            g["outputs"].append(rng.choice(visible))
+        if allow_outer_out and rng.random() < 0.06:
+            # an output that nothing defines: cloning this graph must raise
+            g["ghost_outputs"] = [self.name("ghost")]
         if rng.random() < 0.3:
             g["doc"] = "gdoc"
         if rng.random() < 0.3:
@@ -1157,7 +1168,7 @@ def gen_edits(rng, heap: Heap, b: Built, side_root, n_edits):
 # --------------------------------------------------------------------------- one case, real side
 
 
-def real_case(spec, histories_seed, n_hist, n_edits, out):
+def real_case(spec, histories_seed, n_hist, n_edits, out, fixed_plans=None):
     """Runs the real code.  Returns a dict with everything the model comparison needs."""
     import random
 
@@ -1186,6 +1197,7 @@ def real_case(spec, histories_seed, n_hist, n_edits, out):
             pre_cells.setdefault(k, set()).update(s)
     src_ser = serialize(src)
     snap_all_before = [snapshot(r) for r in all_roots]
+    users_before = users_of(all_roots)
     _defined, outer, ordered = source_analysis(src)
     step = {"model": {"op": "modelClone", "mo": src_id}, "function": {"op": "funcClone", "f": src_id}}.get(kind) or {
         "op": "graphClone", "g": src_id, "allow": bool(t.get("allow"))}  # fmt: skip
@@ -1206,6 +1218,10 @@ def real_case(spec, histories_seed, n_hist, n_edits, out):
         # a failed clone must not have changed the source
         if [snapshot(r) for r in all_roots] != snap_all_before:
             out.fail(f"failed-clone-side-effect:{sig_shape}", "a raising clone changed the original", {"spec": spec})
+        elif users_of(all_roots) != users_before:
+            out.fail(f"failed-clone-leaves-users:{sig_shape}",
+                     "a raising clone left its half-built nodes registered as users of values of the original",
+                     {"spec": spec})  # fmt: skip
         res["world1"] = heap.dump()
         res["clone_id"] = None
         return res
@@ -1230,28 +1246,54 @@ def real_case(spec, histories_seed, n_hist, n_edits, out):
     for h in range(n_hist):
         side = "clone" if h % 2 == 0 else "orig"
         plans.append((side, gen_edits(rng, heap, b, clone if side == "clone" else src, n_edits)))
+    if fixed_plans is not None and not entangled:
+        plans = [(sd, ed) for sd, ed in fixed_plans] + plans
     for side, edits in plans:
         b2, heap2, src2, src_id2, _w = fresh_build()
         roots2 = b2.roots()
-        clone2 = do_clone_kind(b2, kind, t)
-        cid2 = heap2.add_root(clone2)
-        w1 = heap2.dump()
-        assert cid2 == clone_id and len(w1) == len(res["world1"]), "non-deterministic build"
-        other = src2 if side == "clone" else clone2
-        others = (roots2 + [src2]) if side == "clone" else [clone2]
-        snap_before = [snapshot(r) for r in others]
-        ser_before = [serialize(r) for r in others]
-        outcomes = [apply_edit(heap2, b2, e) for e in edits]
-        snap_after = [snapshot(r) for r in others]
-        ser_after = [serialize(r) for r in others]
-        if snap_after != snap_before or ser_after != ser_before:
+        st = {}
+
+        def edit_clone(clone2):
+            cid2 = heap2.add_root(clone2)
+            w1 = heap2.dump()
+            assert cid2 == clone_id and len(w1) == len(res["world1"]), "non-deterministic build"
+            st["others"] = (roots2 + [src2]) if side == "clone" else [clone2]
+            if "before" not in st:
+                st["before"] = ([snapshot(r) for r in st["others"]], [serialize(r) for r in st["others"]])
+            st["outcomes"] = [apply_edit(heap2, b2, e) for e in edits]
+
+        if t["kind"] == "functionalize" and side == "clone":
+            # the edit history IS the wrapped pass; the original is observed before the call and after it
+            st["others"] = roots2 + [src2]
+            st["before"] = ([snapshot(r) for r in st["others"]], [serialize(r) for r in st["others"]])
+
+            class EditPass(ir.passes.InPlacePass):
+                def call(self, model):
+                    if model is b2.model:
+                        st["same"] = True
+                    else:
+                        edit_clone(model)
+                    return ir.passes.PassResult(model, True)
+
+            try:
+                ir.passes.functionalize(EditPass())(b2.model)
+            except ir.passes.PassError:
+                st.setdefault("same", True)  # the pass infrastructure itself noticed
+            if st.get("same"):
+                out.fail("functionalize:pass-ran-on-input", "functionalize ran the pass on its input model, not on a clone",
+                         {"spec": spec})  # fmt: skip
+                continue
+        else:
+            edit_clone(do_clone_kind(b2, kind, t))
+        others = st["others"]
+        after = ([snapshot(r) for r in others], [serialize(r) for r in others])
+        if after != st["before"]:
             # find the first responsible edit for the signature
             culprit = culprit_edit(spec, kind, t, side, edits)
             out.fail(f"frame:{side}-edited:{culprit}:{tag}",
                      f"editing the {side} changed the {'original' if side == 'clone' else 'clone'}",
                      {"spec": spec, "side": side, "edits": edits})  # fmt: skip
-        del other
-        res["hist"].append({"side": side, "edits": edits, "outcomes": outcomes, "world2": heap2.dump(),
+        res["hist"].append({"side": side, "edits": edits, "outcomes": st["outcomes"], "world2": heap2.dump(),
                             "tr": [translate_edit_later(heap2, b2, e) for e in edits]})  # fmt: skip
     return res
 
@@ -1333,7 +1375,7 @@ def _worker(args):
 
 def compare_cases(ctx: Ctx, results):
     # round 1: the clone itself
-    reqs = [{"m": "clone.run", "world": r["world0"], "script": [r["step"]]} for r in results]
+    reqs = [{"m": "clone.run", "world": r["world0"], "script": [{"op": "wellFormed"}, r["step"]]} for r in results]
     outs = lean_batch_parallel(reqs)
     reqs2, idx2 = [], []
     for r, o in zip(results, outs):
@@ -1343,7 +1385,11 @@ def compare_cases(ctx: Ctx, results):
         if "err" in o:
             ctx.disagree("driver error", {"spec": spec}, o, None)
             continue
-        oc = o["outcomes"][0]
+        if o["outcomes"][0]["r"] != "ok":
+            # hypothesis `wellFormed w` of C13_frame_orig_edited must hold of every abstracted real heap
+            ctx.disagree("abstracted heap has a dangling pointer (wellFormed = false)", {"spec": spec}, o["outcomes"][0], None)
+            continue
+        oc = o["outcomes"][1]
         ctx.case(spec, nontrivial, sample={"target": t, "graph": spec["graph"]["name"], "outcome": r["outcome"]},
                  target=r["tag"], outcome=r["outcome"], model_outcome=oc["r"],
                  nodes=min(len(spec["graph"]["nodes"]), 6))  # fmt: skip
@@ -1369,8 +1415,8 @@ def compare_cases(ctx: Ctx, results):
             continue
         m = dict(zip(oi, om))  # impl raw id -> model raw id
         for h in r["hist"]:
-            script = [r["step"]] + [map_ids(e, m) for e in h["tr"]]
-            reqs2.append({"m": "clone.run", "world": r["world0"], "script": script})
+            edits = [map_ids(e, m) for e in h["tr"]]
+            reqs2.append({"m": "clone.history", "world": r["world0"], "clone": r["step"], "edits": edits})
             idx2.append((r, h, mroots, iroots))
     outs2 = lean_batch_parallel(reqs2)
     for (r, h, mroots, iroots), o in zip(idx2, outs2):
@@ -1418,11 +1464,18 @@ def run(ctx: Ctx) -> None:
 
 
 def replay(ctx: Ctx, obj: dict) -> None:
+    """obj: a replay file / corpus line: {"case": {"spec": .., ["side": .., "edits": ..]}}"""
+    import logging
+
+    logging.disable(logging.CRITICAL)
     case = obj.get("case", obj)
+    if "spec" not in case:  # an unchecked-obligation replay: re-run its disagreeing cases
+        for d in obj.get("correspondence_disagreements", []):
+            replay(ctx, d)
+        return
     spec = case["spec"]
     part = Part()
-    res = real_case(spec, 1, 2, 6, part)
-    if "edits" in case:
-        pass
+    fixed = [(case["side"], case["edits"])] if "edits" in case else None
+    res = real_case(spec, 1, 2, 6, part, fixed_plans=fixed)
     ctx.merge(part)
     compare_cases(ctx, [res])
